@@ -1,6 +1,26 @@
-"""Per-property evidence metadata: what is trusted, assumed and not covered (mirrors DESIGN.md §5/§6/§8)."""
-COMMON_ASSUME = [
-    "volatile globals are read as ordinary memory (sound for data guarded by a lock whose held-ness is a precondition)",
-    "syslog_libbidib is a no-op stub (format strings / varargs not evaluated)",
+"""Per-property metadata: manifest text + what is trusted, assumed and not covered (mirrors DESIGN.md §5/§6/§8)."""
+HOOK_COMMITS = []
+COMMON_TB = [
+    "stubs/vp_locks.h ghost lock model (pthread lock primitives of the real code redirected by macro at the real call sites)",
 ]
-PROPS = {}
+E2_ASSUME = [
+    "E2 abstracts data completely: callee results, pointer targets and out-parameters are nondeterministic; DFCC frame checks on abstracted data are not obligations of E2 units",
+    "lock contracts of callees: 'Shall only be called with ... acquired' doc comments of /repo (extracted on every run) + contracts/locks.json (flag-controlled locking) + preconditions derived for undocumented internal helpers (each checked at every call site)",
+    "the set of locks a callee may acquire is the textual transitive closure of pthread lock calls (over-approximation)",
+    "recursive read acquisition of an rwlock is treated as a violation (POSIX: may deadlock when a writer is queued)",
+    "file-scope `static` is dropped by the preprocessor in E2 wrapper TUs (no function-local statics exist; checked on every run) so that file-local helpers can be replaced by their contracts",
+    "syslog_libbidib calls are compiled out in E2 wrapper TUs (no effect on locks)",
+]
+PROPS = {
+    "C11": {
+        "claimed": True, "engine": "cbmc-contracts", "level": "proof",
+        "technique": "contract-based deductive verification (CBMC/DFCC): generated per-function lock contracts + generated loop invariants over a ghost lock vector",
+        "level_text": "For every function of the library that touches a lock directly or through a callee (about 265), CBMC proves for all paths, all loop iterations and all argument values: locks are acquired in one strict global rank order, never re-acquired while held, only unlocked while held, every callee's lock precondition holds at every call, and the function returns with exactly the lock vector it was entered with. Callers are checked against callee contracts, never bodies. Deadlock freedom follows from rank order + balance (paper step).",
+        "level_note": "Trusted: CBMC 6.11 + DFCC; ghost lock model; textual extraction of prototypes, call graph and lock operations (must-fire rules, exit 2 otherwise); data is abstracted (nondeterministic); one function (bidib_receive_packet) only as bounded stand-in. Not covered: blocking that is not lock-induced (waiting for input / answers).",
+        "assumptions": E2_ASSUME,
+        "trusted_base": COMMON_TB,
+        "not_covered": ["lock-independent blocking (polling loops that wait for bytes or answers)", "the user's callbacks",
+                        "deadlock freedom itself is the classical argument from strict rank order + balance; that composition step is on paper"],
+        "explanation": "generated lock-discipline units (engine E2), see DESIGN.md §4 and §5 C11",
+    },
+}
